@@ -65,5 +65,15 @@ CLAIMED = {
         '(values and extras symbolic), are decoded to exactly the leaves and extras of the non-pruned part.',
    note='Trusted: z3; specs/dictspec.py (label rule written from the reference node); specs/cellspec.py; bitarray model. Trees of more than 4 leaves '
         'are outside the every-encoding parser check; the order of augmentation values is not demanded (matched by node).'),
+ 'C12': dict(
+   text='Bounded symbolic execution of the real check_block_signatures with Ed25519 verification replaced by an uninterpreted validity predicate: '
+        'for 0..4 validators and EVERY signer list of length 0..3 (thorough 0..5) over {each validator, unknown signer} - duplicates and all orders '
+        'included - the solver (linear integer arithmetic) shows for ALL 64-bit weights, all truth values of each signature and all block hashes: '
+        'accepted exactly when every signature is valid, every signer known, signers pairwise distinct and 3*signed > 2*total; the signed payload '
+        'is magic+root_hash+file_hash; node id = sha256(magic+pubkey).',
+   note='Trusted: z3 (LIA); the stub contract of verify_sign (functional; validated on fixed vectors against libsodium through the repo wrapper). '
+        'Ed25519 itself and more than 4 validators are outside the claim. int/int true division, if the code uses it, is modelled exactly through '
+        'its rounding boundary (sx/zint.py).',
+   technique='bounded symbolic execution of the real source with z3 (SX, integer theory): solver verdict per path, replay of models on the untouched library'),
 }
 NOT_APPLICABLE = {}
